@@ -47,8 +47,11 @@ def units(tier):
 
 
 def meta(tier):
-    return dict(bounds=dict(programs=len(PG.base_programs()) + 4, placements="every line boundary (full-line) and every line (trailing); 1-2 comments per program",
-                            symbolic="text of the first comment: 3 characters over printable ASCII"),
+    q = tier == "quick"
+    return dict(bounds=dict(programs=len(PG.base_programs()) + 7, placements="every line boundary (full-line) and every line (trailing); 1-2 comments per program",
+                            continued="inside a continued statement: trailing on the first part, a line between the parts, trailing on the last part; between the halves of a continued character literal",
+                            reader_kernel="k_inline: 'a = <text>' for every text of <= %d characters over ' \" ! a blank, free and fixed form -- the trailing comment starts at the first '!' outside a character context" % (7 if q else 8),
+                            symbolic="text of the first comment: 3 characters over printable ASCII; the whole text (kernel)"),
                 assumptions=["free form", "a comment consisting of '!' and blanks compares modulo trailing blanks"],
                 budget_s=400, unit_budget_s=60, witness_every=10)
 
